@@ -12,7 +12,7 @@
    [sqrtf] is np.sqrt: any function with the defining property of the square root. *)
 From Coq Require Import Reals Qreals List Bool.
 From Verif Require Import Base.Num Base.Vec Base.VecR C08.Model C08.VecLemmas C08.Rules C08.Proofs
-  C08.ProxRules C08.Moreau C08.GradEq C08.Biconj C08.KL C08.ConjTables C08.Transfer.
+  C08.ProxRules C08.Moreau C08.GradEq C08.Biconj C08.KL C08.ConjTables C08.Transfer C08.Group.
 Import ListNotations.
 Local Open Scope R_scope.
 
@@ -154,3 +154,15 @@ Theorem cconj_Q_is_restriction_of_R : forall (e : fxQ), vec_nz e -> forall w,
   rmap fR (cconj w e) = cconj (map Q2R w) (fR e).
 Proof. exact cconj_transfer. Qed.
 Print Assumptions cconj_Q_is_restriction_of_R.
+
+(* GROUP PAIR  GroupL1Norm(S, 2) <-> IndicatorGroupL1UnitBall(S, 2) on a power space S = X^d (X with m points;
+   flat vectors of length d*m) enters the trees as the abstract pair [FPair b (group_pair sqrtf d m)]; all
+   theorems above hold for trees containing it because the pair is consistent for ALL d >= 1 and m:
+   lengths preserved, Moreau identity of proximal_l1_l2 / proximal_convex_conj_l1_l2 for every weighting,
+   Fenchel-Young for every positive weighting that repeats the base weights on the d components
+   (pointwise Cauchy-Schwarz).  The pair's gradient is not modelled. *)
+Theorem group_pair_consistent :
+  forall (sqrtf : R -> R), (forall a, 0 <= a -> 0 <= sqrtf a /\ sqrtf a * sqrtf a = a) ->
+  forall m d : nat, (1 <= d)%nat -> pair_ok (d * m) (group_pair sqrtf d m).
+Proof. exact group_pair_ok. Qed.
+Print Assumptions group_pair_consistent.
